@@ -22,7 +22,7 @@ for k in 1 2 3; do
   if [ $A -eq 0 ] && [ $B -eq 0 ] && [ $C -ne 0 ] && [ $C -ne 124 ]; then
     D=/verif/seeded/$P-s$k; mkdir -p $D
     cp $S/patch.diff $D/; [ -f $S/seed_demo.rs ] && cp $S/seed_demo.rs $D/; [ -f $S/demo.patch ] && cp $S/demo.patch $D/
-    python3 - $S/meta.json $D/meta.json "$P" "$KIND" "$DEMO" "$A" "$B" "$C" <<'PY'
+    python3 - $S/meta.json $D/meta.json "${P:0:3}" "$KIND" "$DEMO" "$A" "$B" "$C" <<'PY'
 import json,sys
 try: m=json.load(open(sys.argv[1]))
 except Exception as e: m={"note":"agent meta.json unreadable: %s"%e}
